@@ -15,7 +15,7 @@ fn body(p: &pdbtbx::PDB) -> Option<String> {
 
 pub fn gen(tier: &str, r: &mut Rng) -> Vec<String> {
     let mut out = Vec::new();
-    let n = budget(tier, 500, 40_000);
+    let n = budget(tier, 500, 15_000);
     for _ in 0..n {
         let mixed = r.chance(1, 4);
         let with_h = r.chance(1, 2);
